@@ -4,7 +4,7 @@ from vlib.core import Case
 PROP = "C16"
 # the integrated default-chain model (all built-in rule-check slots at once) is an extra phase of this property:
 # `bin/check C16 …` runs `checks/INT.py` afterwards and reports it under C16 (see notes/INT.md)
-ALSO = []  # ["INT"] temporarily off while INT is re-synchronised with the module models
+ALSO = ["INT"]
 SPEC_MODE = "spec"
 KEEP_PREFIX = 0
 SIZES = {"quick": 6000, "thorough": 100000}
